@@ -1,7 +1,8 @@
 """C05 — reported peaks are in bounds, separated, limited, and agree with the score map.
 
 Leg B.  The real peak callers of the repo under PYTME_REPO (tme/analyzer.py, the C++
-`find_candidate_indices`, `topk_indices`, `max_filter_coordinates`, `split_shape`) are run on
+`find_candidate_indices`, `max_index_by_label`, `topk_indices`, `max_filter_coordinates`, `split_shape`, `_batchify`,
+`filter_points_indices(batch_dims)`, `_filter_bucket`, `PeakClustering.merge`, callers built with `batch_dims`) are run on
 generated score arrays / histories / merges / post-processing parameters and compared with the
 Lean model (Model/C05.lean) through the driver; every clause of the property is evaluated on the
 real outputs (ctx.spec), independently of the model; an end-to-end `scan(..., callback_class=…)`
@@ -33,13 +34,27 @@ RULE = ("histories of 1-6 integer-valued score arrays (2-D/3-D, extents 1..12 in
         "keywords, callers that hold no peak); end-to-end scan/scan_subsets vs the score map of the same run and of every "
         "single rotation, serial and with rotations split over 2-3 jobs (more jobs than rotations), target splits 2/3 on "
         "one or two axes, schedules (2,1)/(1,2)/(3,1), score windows. "
+        "Helpers the callers reach: PeakCaller._batchify on shapes with extents 0..5 and batch_dims None / () / ascending / "
+        "descending / repeated / out-of-range (batch axes of extent 1); filter_points_indices with batch_dims (empty "
+        "inputs, one row, negative coordinates, one batch only); _filter_bucket called directly on numpy arrays (duplicates, "
+        "negative coordinates); the C++ max_index_by_label (int32/int64 labels, float32/float64/int32/int64 scores, ties, "
+        "negatives, empty, the noise label -1); PeakClustering.merge on parts with >= 8 coincident rows and isolated rows "
+        "(DBSCAN's labels recorded); tie-free histories and merges (with offsets) of callers built with 1-3 ascending "
+        "batch_dims for Sort / MaximumFilter / Fast / RecursiveMasking (margin, score window, batch axes of extent 1). "
         "distinct = distinct (kind, strategy, cfg, shape, data-hash) tuples; histories whose final list is empty and "
         "arrays with a single voxel are not counted")
 ASSUMPTIONS = [
     "min_distance = 0 switches the distance filter off by design (filter_points_indices returns every index; "
     "PeakClustering relies on it): the separation clause is evaluated for min_distance >= 1 only",
-    "the numpy backend and batch_dims=None; RecursiveMasking with its default box mask in the model runs (an explicit "
+    "the numpy backend; histories with ties and PeakCallerScipy are run with batch_dims=None, histories / merges of "
+    "callers built with batch_dims are run on tie-free scores with ascending in-range batch_dims (a descending tuple makes "
+    "_batchify skip part of the array: Lean witness batchify_descending_batch_dims_current_defect; the helper itself is "
+    "compared on every kind of tuple); with batch_dims the separation, count and margin clauses are per batch (margin on "
+    "the non-batch axes), as the code intends; RecursiveMasking with its default box mask in the model runs (an explicit "
     "all-ones mask, identity rotation, rotation look-up in its documented form ids -> Euler angles, is run spec-only)",
+    "_filter_bucket is reachable from filter_points_indices on the cupy / jax backends only; it is called directly on numpy "
+    "arrays here; PeakClustering.merge is compared as it is today (it ranks a cluster by and reports candidate[2], the third "
+    "coordinate, and raises IndexError on 2-D peaks): PeakClustering is not one of the property's five strategies",
     "PeakCallerScipy: skimage.feature.peak_local_max is an external oracle (its answer is fed to the model); the "
     "global-maximum clause is evaluated when a maximum lies farther than min_distance from every border and the "
     "array is not constant (peak_local_max uses the strict threshold image > image.min())",
@@ -1275,6 +1290,361 @@ def _e2e_jobs(ctx, n):
         _check_e2e(ctx, ec)
 
 
+# --------------------------------------------------------------------------- batch axes, bucket filter, clustering
+
+def _gen_bd(rng, d, allow_bad=True):
+    """batch_dims: None, (), ascending subsets, and (less often) descending / repeated / out-of-range tuples"""
+    r = rng.random()
+    if r < 0.15:
+        return None
+    if r < 0.22:
+        return []
+    k = int(rng.integers(1, d + 1))
+    bd = sorted(int(x) for x in rng.choice(d, size=k, replace=False))
+    r = rng.random()
+    if allow_bad and r < 0.12:
+        bd = bd[::-1] if len(bd) > 1 else bd + bd
+    elif allow_bad and r < 0.2:
+        bd = bd + [bd[0]]
+    elif allow_bad and r < 0.25:
+        bd = bd + [d + int(rng.integers(0, 2))]
+    return bd
+
+
+def _bd_class(bd, d):
+    if bd is None:
+        return "none"
+    if not bd:
+        return "empty"
+    if any(x >= d for x in bd):
+        return "out-of-range"
+    if len(set(bd)) < len(bd):
+        return "repeated"
+    if bd != sorted(bd):
+        return "descending"
+    return "ascending"
+
+
+def _unit_batchify(ctx):
+    """PeakCaller._batchify (subsets, offsets, shape of scores[subset]) vs the model's batchify; the partition clause on
+    the real output: with ascending in-range batch_dims every voxel lies in exactly one subset and local index + offset is
+    its global index"""
+    from tme.analyzer import PeakCaller
+    rng = ctx.rng("batchify")
+    reqs, keep = [], []
+    for it in range(ctx.budget(150, 1500)):
+        d = int(rng.choice([1, 2, 2, 3, 3, 4]))
+        shape = [int(x) for x in rng.choice([0, 1, 1, 2, 3, 4, 5], size=d)]
+        bd = _gen_bd(rng, d)
+        arr = np.arange(int(np.prod(shape)), dtype=np.int64).reshape(shape)
+        try:
+            got, cover = [], np.zeros(shape, dtype=np.int64)
+            restored = True
+            for subset, offset in PeakCaller._batchify(tuple(shape), None if bd is None else tuple(bd)):
+                sel = []
+                for ax, s in enumerate(subset):
+                    if s == slice(None):
+                        sel.append(None)
+                    else:
+                        assert s.step is None and s.stop == s.start + 1
+                        sel.append(int(s.start))
+                sub = arr[subset]
+                got.append({"sel": sel, "off": [int(x) for x in offset], "shape": [int(x) for x in sub.shape]})
+                cover[subset] += 1
+                if sub.size:
+                    loc = np.stack(np.unravel_index(np.arange(sub.size), sub.shape), axis=1) + np.array(offset)
+                    restored = restored and bool((arr[tuple(loc.T)] == sub.reshape(-1)).all())
+        except IndexError:
+            got, cover, restored = "err:IndexError", None, None
+        keep.append((shape, bd, got, cover, restored))
+        reqs.append(("c05.batchify", {"shape": shape, "bd": bd}))
+    for (shape, bd, got, cover, restored), m in zip(keep, _batch(ctx, reqs)):
+        inp = {"kind": "batchify", "shape": shape, "bd": bd}
+        ctx.agree("PeakCaller._batchify (subsets, offsets, subset shapes)", inp, got, m)
+        cls = _bd_class(bd, len(shape))
+        ctx.count("batchify:batch_dims=" + cls)
+        if any(bd is not None and x < len(shape) and shape[x] == 1 for x in (bd or [])):
+            ctx.count("batchify:batch-axis-of-extent-1")
+        if cls in ("none", "empty", "ascending") and not isinstance(got, str):
+            ctx.spec("the batches partition the score array and offsets restore global coordinates", inp,
+                     bool((cover == 1).all()) and restored, {"subsets": len(got)}, key="_batchify:partition")
+            if int(np.prod(shape)) > 1:
+                ctx.distinct(("batchify", tuple(shape), tuple(bd) if bd is not None else None))
+
+
+def _unit_greedy_batch(ctx):
+    """filter_points_indices(..., batch_dims) (rescaling + C++ greedy pass) vs the model's filterPointsB; on the real
+    output: kept rows of one batch are farther apart than min_distance, and a dropped row has a kept row of its own batch
+    within min_distance"""
+    from tme.analyzer import filter_points_indices
+    rng = ctx.rng("greedy-batch")
+    reqs, keep = [], []
+    for _ in range(ctx.budget(250, 4000)):
+        d = int(rng.choice([2, 2, 3, 3, 4]))
+        k = int(rng.choice([0, 1, 2, 5, 9, 14]))
+        span = int(rng.choice([2, 3, 5, 9]))
+        md = int(rng.choice([0, 1, 1, 2, 3, 5]))
+        bd = _gen_bd(rng, d)
+        coords = rng.integers(0, span, size=(k, d)).astype(np.int64)
+        if bd and rng.random() < 0.3:
+            for x in bd:
+                if x < d:
+                    coords[:, x] = int(rng.integers(0, 3))      # batch axis of extent 1: one batch
+        if rng.random() < 0.2:
+            coords -= int(rng.integers(1, 4))                    # negative coordinates (frame of a merge offset)
+        try:
+            got = [int(x) for x in filter_points_indices(coordinates=coords, min_distance=md,
+                                                         batch_dims=None if bd is None else tuple(bd))]
+        except IndexError:
+            got = "err:IndexError"
+        keep.append((coords.tolist(), md, bd, got))
+        reqs.append(("c05.greedyB", {"md": md, "bd": bd, "coords": coords.tolist()}))
+    for (coords, md, bd, got), m in zip(keep, _batch(ctx, reqs)):
+        inp = {"kind": "greedyB", "coords": coords, "md": md, "bd": bd}
+        ctx.agree("filter_points_indices with batch_dims", inp, got, m)
+        ctx.count("greedyB:batch_dims=" + _bd_class(bd, len(coords[0]) if coords else 9))
+        if not coords:
+            ctx.count("greedyB:empty")
+        if isinstance(got, str) or md == 0 or not coords:
+            continue
+        b = [x for x in (bd or [])]
+        same = lambda p, q: all(p[x] == q[x] for x in b)   # noqa: E731
+        kept = [coords[i] for i in got]
+        ok = all(_d2(kept[i], kept[j]) > md * md for i in range(len(kept)) for j in range(i + 1, len(kept)) if same(kept[i], kept[j]))
+        ctx.spec("no two reported peaks of one batch within min_distance", inp, ok, got, key="filter_points_indices:batch:separated")
+        dropped = [i for i in range(len(coords)) if i not in got]
+        ok = all(any(j < i and same(coords[i], coords[j]) and _d2(coords[i], coords[j]) < (md + 1) ** 2 for j in got) for i in dropped)
+        # the C++ compares the truncated root (int64): a row is suppressed iff floor(sqrt(d2)) <= md, i.e. d2 < (md+1)^2
+        ctx.spec("a peak is suppressed only by a better peak of its own batch closer than min_distance + 1", inp, ok,
+                 {"kept": got}, key="filter_points_indices:batch:suppressed-across-batches")
+        if len(coords) > 1:
+            ctx.distinct(("greedyB", md, tuple(b), hash(json.dumps(coords)) & 0xffffffff))
+
+
+def _unit_bucket(ctx):
+    """_filter_bucket (the path of filter_points_indices on the cupy / jax backends; called directly on numpy arrays)
+    vs the model's filterBucket"""
+    from tme.analyzer import _filter_bucket
+    rng = ctx.rng("bucket")
+    reqs, keep = [], []
+    for _ in range(ctx.budget(200, 3000)):
+        d = int(rng.choice([1, 2, 2, 3, 3, 4]))
+        k = int(rng.choice([1, 2, 3, 6, 10, 16]))
+        span = int(rng.choice([2, 4, 7, 12]))
+        md = int(rng.choice([1, 1, 2, 3, 5]))
+        coords = rng.integers(0, span, size=(k, d)).astype(np.int64)
+        if rng.random() < 0.25:
+            coords -= int(rng.integers(1, 6))
+        if rng.random() < 0.2 and k > 1:
+            coords[int(rng.integers(1, k))] = coords[0]          # an exact duplicate
+        got = [int(x) for x in _filter_bucket(coords.copy(), md)]
+        keep.append((coords.tolist(), md, got))
+        reqs.append(("c05.bucket", {"md": md, "coords": coords.tolist()}))
+    for (coords, md, got), m in zip(keep, _batch(ctx, reqs)):
+        inp = {"kind": "bucket", "coords": coords, "md": md}
+        ctx.agree("_filter_bucket", inp, got, m)
+        mins = [min(c[j] for c in coords) for j in range(len(coords[0]))]
+        bk = [tuple((c[j] - mins[j]) // md for j in range(len(c))) for c in coords]
+        ctx.spec("rows kept by the bucket filter lie in pairwise different buckets, the first row is kept, order is kept", inp,
+                 len({bk[i] for i in got}) == len(got) and got[:1] == [0] and got == sorted(got), got, key="_filter_bucket:buckets")
+        ctx.count("bucket:md=%d" % md)
+        if len({bk[i] for i in got}) < len(set(bk)):
+            ctx.count("bucket:flattening-collision(a whole bucket lost)")
+        if len(coords) > 1:
+            ctx.distinct(("bucket", md, hash(json.dumps(coords)) & 0xffffffff))
+
+
+def _unit_mibl(ctx):
+    """C++ max_index_by_label vs the model; one representative per label, the first best row of its label"""
+    from tme.extensions import max_index_by_label
+    rng = ctx.rng("mibl")
+    reqs, keep = [], []
+    for _ in range(ctx.budget(200, 3000)):
+        n = int(rng.choice([0, 1, 2, 5, 9, 20]))
+        labels = rng.integers(-1, int(rng.choice([0, 1, 3, 6])) + 1, size=n).astype(rng.choice([np.int64, np.int32]))
+        if rng.random() < 0.5:
+            scores = rng.integers(-3, 4, size=n)
+        else:
+            scores = rng.permutation(2 * n + 1)[:n] - n
+        sdt = rng.choice(["f4", "f8", "i8", "i4"])
+        d = max_index_by_label(labels=labels, scores=scores.astype(sdt))
+        got = sorted([int(a), int(b)] for a, b in d.items())
+        keep.append(([int(x) for x in labels], [int(x) for x in scores], got))
+        reqs.append(("c05.mibl", {"labels": keep[-1][0], "scores": keep[-1][1]}))
+    for (labels, scores, got), m in zip(keep, _batch(ctx, reqs)):
+        inp = {"kind": "mibl", "labels": labels, "scores": scores}
+        ctx.agree("max_index_by_label", inp, got, sorted(m) if isinstance(m, list) else m)
+        ok = sorted(g[0] for g in got) == sorted(set(labels)) and all(
+            labels[i] == lab and scores[i] == max(s for l2, s in zip(labels, scores) if l2 == lab)
+            and i == min(j for j in range(len(labels)) if labels[j] == lab and scores[j] == scores[i]) for lab, i in got)
+        ctx.spec("max_index_by_label names, for every label, the first row with that label's best score", inp, ok, got,
+                 key="max_index_by_label:contract")
+        ctx.count("mibl:n=%d" % len(labels))
+        if len(labels) > 1:
+            ctx.distinct(("mibl", hash(json.dumps([labels, scores])) & 0xffffffff))
+
+
+def _unit_cluster(ctx):
+    """PeakClustering.merge vs the model's clusterMerge: the rows super().merge produces and DBSCAN's labels on them are
+    taken from the real run (oracle), the selection of representatives and the reported tuple are the model's"""
+    from sklearn.cluster import DBSCAN
+    from tme import analyzer as A
+    rng = ctx.rng("cluster")
+    for _ in range(ctx.budget(40, 400)):
+        d = int(rng.choice([3, 3, 3, 2]))
+        sites = rng.integers(0, 6, size=(int(rng.integers(1, 4)), d))
+        parts = []
+        for _p in range(int(rng.integers(1, 4))):
+            k = int(rng.choice([1, 4, 9, 12]))
+            pos = sites[rng.integers(0, len(sites), size=k)].astype(np.int64)
+            if rng.random() < 0.5:
+                pos[int(rng.integers(0, k))] = rng.integers(6, 9, size=d)      # an isolated row: DBSCAN noise
+            rot = np.stack([_rotmat(d, int(r)) for r in rng.integers(0, 5, size=k)])
+            sc = (rng.permutation(40)[:k] - 10).astype(np.float64)
+            parts.append((pos, rot, sc, np.full(k, -1.0)))
+        n = int(rng.choice([5, 20, 1000]))
+        inp = {"kind": "cluster", "d": d, "n": n,
+               "parts": [[p[0].tolist(), [int(r[0, 0]) for r in p[1]], [int(s) for s in p[2]]] for p in parts]}
+        mid = A.PeakCaller.merge.__func__(A.PeakClustering, candidates=[tuple(x.copy() for x in p) for p in parts], number_of_peaks=n)
+        mid_c = _canon(mid)
+        labels = [int(x) for x in DBSCAN(eps=np.finfo(float).eps, min_samples=8).fit(mid[0]).labels_]
+        try:
+            out = _canon(A.PeakClustering.merge(candidates=[tuple(x.copy() for x in p) for p in parts], number_of_peaks=n))
+        except IndexError:
+            out = "err:IndexError"
+        m = ctx.driver.call("c05.clusterMerge", peaks=mid_c, labels=labels, byScore=False)
+        ctx.agree("PeakClustering.merge (representatives given DBSCAN's labels)", {**inp, "labels": labels}, out, m)
+        ctx.count("cluster:clusters=%d" % len({x for x in labels if x >= 0}))
+        ctx.count("cluster:noise" if -1 in labels else "cluster:no-noise")
+        if isinstance(out, list):
+            pos = [tuple(p[0]) for p in out]
+            ctx.spec("PeakClustering.merge reports one row per cluster and no noise row", inp,
+                     len(set(pos)) == len(pos) == len({x for x in labels if x >= 0}), out[:8], key="PeakClustering:one-per-cluster")
+            if out:
+                ctx.distinct(("cluster", hash(json.dumps(inp["parts"])) & 0xffffffff))
+
+
+def _gen_batched_case(rng, strategy):
+    d = int(rng.choice([2, 3, 3]))
+    shape = [int(x) for x in rng.choice([1, 2, 3, 4, 5, 6], size=d)]
+    k = int(rng.integers(1, d + 1)) if rng.random() < 0.3 else 1
+    bd = sorted(int(x) for x in rng.choice(d, size=k, replace=False))
+    md = int(rng.choice([1, 1, 2, 3] if strategy == "fast" else [0, 1, 1, 2, 3]))
+    cfg = {"n": int(rng.choice([1, 2, 3, 5, 1000])), "md": md, "mb": int(rng.choice([0, 0, 0, 1])), "lo": None, "hi": None}
+    if strategy == "recursive":
+        # the loop runs number_of_peaks times whatever is left (it reports masked voxels again once everything is masked;
+        # with min_distance 0 nothing is masked at all): keep the count next to the voxel count of a batch
+        cfg["n"] = min(cfg["n"], 5 if md == 0 else int(np.prod(shape)) + 2)
+    nsub = int(rng.integers(1, 4))
+    size = int(np.prod(shape))
+    vals = rng.permutation(nsub * size + 3)[:nsub * size] - int(rng.choice([0, 5, nsub * size // 2]))
+    if rng.random() < 0.25:
+        cfg["lo"] = int(rng.choice(vals))
+    if rng.random() < 0.15:
+        cfg["hi"] = int(rng.choice(vals))
+    subs = [{"data": [int(x) for x in vals[i * size:(i + 1) * size]], "rot": int(rng.integers(0, 5))} for i in range(nsub)]
+    case = {"strategy": strategy, "cfg": cfg, "shape": shape, "bd": bd, "subs": subs}
+    if rng.random() < 0.6:
+        case["offset"] = [int(x) for x in rng.integers(-3, 12, size=d)]
+    return case
+
+
+def _check_batched(ctx, case):
+    """a caller built with batch_dims: state after every call vs the model's runB; the property's clauses per batch"""
+    st, cfg, shape, bd = case["strategy"], case["cfg"], case["shape"], case["bd"]
+    inp = {"kind": "batched", **case}
+    d = len(shape)
+    states = []
+    try:
+        pc = _classes()[st](batch_dims=tuple(bd), **_cfg_kwargs(cfg))
+        for sub in case["subs"]:
+            with warnings.catch_warnings():
+                warnings.simplefilter("ignore")
+                pc(np.array(sub["data"], dtype=np.float64).reshape(shape), _rotmat(d, sub["rot"]))
+            states.append(_canon(tuple(pc)))
+    except Exception as e:
+        states.append("raised:" + type(e).__name__)
+    m = ctx.driver.call("c05.runB", cfg=cfg, strategy=st, bd=bd,
+                        subs=[{"shape": shape, "data": s["data"], "rot": s["rot"]} for s in case["subs"]])
+    ctx.count(f"batched:{st}")
+    ctx.count("batched:batch-axes=%d" % len(bd))
+    if any(shape[x] == 1 for x in bd):
+        ctx.count("batched:batch-axis-of-extent-1")
+    if any(isinstance(s, str) for s in states):
+        ctx.spec("the strategy reports peaks (does not raise) for an accepted configuration", inp, False,
+                 {"outcome": [s for s in states if isinstance(s, str)][0]}, key=f"{st}:batch_dims:raises")
+        return
+    ctx.agree("PeakCaller history with batch_dims: tuple(peak_caller) after each call", inp, states, m)
+    arrs = [np.array(s["data"]).reshape(shape) for s in case["subs"]]
+    for i, peaks in enumerate(states):
+        batch = lambda p: tuple(p[0][x] for x in bd)   # noqa: E731
+        inb = all(all(0 <= x < s for x, s in zip(p[0], shape)) for p in peaks)
+        ctx.spec("every reported peak lies inside the scored volume", inp, inb, peaks[:10], key=f"{st}:batch_dims:inbounds")
+        if not inb:
+            continue
+        src = all(any(s["rot"] == p[1] and int(a[tuple(p[0])]) == p[2] for s, a in zip(case["subs"][:i + 1], arrs)) for p in peaks)
+        ctx.spec("reported score and rotation are the submitted ones at that translation", inp, src, peaks[:10],
+                 key=f"{st}:batch_dims:score-rotation")
+        okw = all((cfg["lo"] is None or p[2] >= cfg["lo"]) and (cfg["hi"] is None or p[2] <= cfg["hi"]) for p in peaks)
+        ctx.spec("reported scores lie in the configured score window", inp, okw, peaks[:10], key=f"{st}:batch_dims:window")
+        if cfg["mb"]:
+            okm = all(all(ax in bd or cfg["mb"] <= x < s - cfg["mb"] for ax, (x, s) in enumerate(zip(p[0], shape))) for p in peaks)
+            ctx.spec("reported peaks keep the boundary margin on the non-batch axes", inp, okm, peaks[:10], key=f"{st}:batch_dims:margin")
+        if cfg["md"] >= 1:
+            ok = all(_d2(p[0], q[0]) > cfg["md"] ** 2 for a_, p in enumerate(peaks) for q in peaks[a_ + 1:] if batch(p) == batch(q))
+            ctx.spec("no two reported peaks of one batch within min_distance", inp, ok, peaks[:10], key=f"{st}:batch_dims:separated")
+        per = {}
+        for p in peaks:
+            per[batch(p)] = per.get(batch(p), 0) + 1
+        ctx.spec("at most number_of_peaks reported per batch", inp, all(v <= cfg["n"] for v in per.values()), per and max(per.values()),
+                 key=f"{st}:batch_dims:count")
+        if cfg["mb"] == 0 and cfg["lo"] is None and cfg["hi"] is None:
+            M = max(int(a.max()) for a in arrs[:i + 1])
+            ctx.spec("the highest-scoring translation is reported", inp, any(p[2] == M for p in peaks), {"max": M},
+                     key=f"{st}:batch_dims:max-reported")
+    # PeakCaller.merge with batch_dims (what scripts/postprocess.py does): one caller per submission, merged with an offset
+    cls = _classes()[st]
+    parts = []
+    for sub in case["subs"]:
+        pc1 = cls(batch_dims=tuple(bd), **_cfg_kwargs(cfg))
+        with warnings.catch_warnings():
+            warnings.simplefilter("ignore")
+            pc1(np.array(sub["data"], dtype=np.float64).reshape(shape), _rotmat(d, sub["rot"]))
+        parts.append(tuple(pc1))
+    off = case.get("offset")
+    try:
+        kw = dict(batch_dims=tuple(bd), **_cfg_kwargs(cfg))
+        if off is not None:
+            kw["offset"] = np.array(off)
+        merged = _canon(cls.merge(candidates=parts, **kw))
+    except Exception as e:
+        merged = "raised:" + type(e).__name__
+    jparts = [None if len(t) == 0 else _canon(t) for t in parts]
+    mm = ctx.driver.call("c05.mergeB", cfg=cfg, bd=bd, offset=off, parts=jparts)
+    minp = {**inp, "merge": True}
+    ctx.agree("PeakCaller.merge with batch_dims", minp, merged, mm)
+    ctx.count("batched:merge:" + ("offset" if off is not None else "no-offset"))
+    if isinstance(merged, list):
+        o = off or [0] * d
+        pool = {(tuple(x + y for x, y in zip(p[0], o)), p[1], p[2]) for t in jparts if t for p in t}
+        ctx.spec("merged peaks are the partial results' peaks moved by the offset (score, rotation kept)", minp,
+                 all((tuple(p[0]), p[1], p[2]) in pool for p in merged), merged[:8], key=f"{st}:batch_dims:merge:from-parts")
+        if cfg["md"] >= 1:
+            same = lambda p, q: all(p[0][x] == q[0][x] for x in bd)   # noqa: E731
+            ok = all(_d2(p[0], q[0]) > cfg["md"] ** 2 for a_, p in enumerate(merged) for q in merged[a_ + 1:] if same(p, q))
+            ctx.spec("no two reported peaks of one batch within min_distance", minp, ok, merged[:8], key=f"{st}:batch_dims:merge:separated")
+    if states and states[-1] and int(np.prod(shape)) > 1:
+        ctx.distinct(("batched", st, json.dumps(cfg, sort_keys=True), tuple(shape), tuple(bd),
+                      hash(json.dumps(case["subs"])) & 0xffffffff))
+
+
+def _batched_histories(ctx, n):
+    rng = ctx.rng("batched")
+    sts = ("sort", "maxfilter", "fast", "recursive")
+    for i in range(n):
+        _check_batched(ctx, _gen_batched_case(rng, sts[i % len(sts)]))
+
+
 # --------------------------------------------------------------------------- entry points
 
 def _dispatch(ctx, inp, model=True):
@@ -1297,6 +1667,11 @@ def _dispatch(ctx, inp, model=True):
         _bad_configs(ctx)
     elif k == "large":
         _large_candidate_sets(ctx, ctx.budget(4, 16))
+    elif k == "batched":
+        _check_batched(ctx, {x: inp[x] for x in ("strategy", "cfg", "shape", "bd", "subs", "offset") if x in inp})
+    elif k in ("batchify", "greedyB", "bucket", "mibl", "cluster"):
+        {"batchify": _unit_batchify, "greedyB": _unit_greedy_batch, "bucket": _unit_bucket, "mibl": _unit_mibl,
+         "cluster": _unit_cluster}[k](ctx)
     elif k in ("greedy", "topk", "tiles", "callpeaks"):
         _unit_greedy(ctx) if k == "greedy" else _unit_topk(ctx) if k == "topk" else _unit_tiles(ctx) if k == "tiles" else _unit_callpeaks(ctx)
 
@@ -1397,6 +1772,12 @@ def run(ctx):
     _unit_greedy(ctx)
     _unit_topk(ctx)
     _unit_callpeaks(ctx)
+    _unit_batchify(ctx)
+    _unit_greedy_batch(ctx)
+    _unit_bucket(ctx)
+    _unit_mibl(ctx)
+    _unit_cluster(ctx)
+    _batched_histories(ctx, ctx.budget(200, 2000))
     _histories(ctx, ties=False, n=ctx.budget(300, 5000))
     _histories(ctx, ties=True, n=ctx.budget(300, 5000))
     _float_histories(ctx, ctx.budget(200, 3000))
